@@ -32,6 +32,9 @@ type fakeOut struct {
 	id   int
 	log  *playLog
 	open bool
+	// slow: the time a Send call takes (a serial port at 31250 baud, a busy USB hub). Only set in the
+	// workers on the virtual process clock, where the pause is exact and costs nothing.
+	slow time.Duration
 }
 
 func (f *fakeOut) Open() error             { f.open = true; return nil }
@@ -44,6 +47,9 @@ func (f *fakeOut) Send(b []byte) error {
 	now := time.Since(f.log.t0)
 	s := atomic.AddInt64(&f.log.seq, 1)
 	f.log.recs = append(f.log.recs, sendRec{s, now, f.id, append([]byte(nil), b...)})
+	if f.slow > 0 {
+		time.Sleep(f.slow)
+	}
 	return nil
 }
 
@@ -61,7 +67,7 @@ func init() {
 			"'never early' is one-sided: the start instant is read before Play/MultiPlay is called, so machine load can only delay sends, never make the check fire",
 			"sysex events in tracks are not constrained (the statement speaks of channel messages and meta events)",
 		},
-		Require:         []string{"plays", "sends_observed", "same_tick_runs_ge_13", "cross_track_same_tick", "selections_proper_subset", "maps_without_default", "never_early_checks", "play_single_port", "replays_with_rerouted_map", "late_schedule_plays", "round_gap_plays", "selections_with_repeated_tracks", "long_plays_on_virtual_clock"},
+		Require:         []string{"plays", "sends_observed", "same_tick_runs_ge_13", "cross_track_same_tick", "selections_proper_subset", "maps_without_default", "never_early_checks", "play_single_port", "replays_with_rerouted_map", "late_schedule_plays", "round_gap_plays", "selections_with_repeated_tracks", "long_plays_on_virtual_clock", "slow_ports"},
 		FakeTimeWorkers: 2,
 		Workers:         16,
 		Run:             runC12,
@@ -228,6 +234,10 @@ func runC12(c *mon.Ctx) {
 			ports := make([]*fakeOut, nports+1)
 			for p := range ports {
 				ports[p] = &fakeOut{id: p, log: log, open: true}
+				if slow && mon.FakeTime && r.P(1, 2) {
+					ports[p].slow = time.Duration(r.Pick(1, 5, 20, 100, 300)) * time.Millisecond
+					c.Count("slow_ports", 1)
+				}
 			}
 			portOf := func(t int) int { // -1 = not played
 				if o, ok := outs[t]; ok {
